@@ -656,6 +656,21 @@ def _pop(d):
         return odl.IdentityOperator(odl.rn(d[1]))
     if k == 'scale':
         return odl.ScalingOperator(odl.rn(d[1]), d[2])
+    if k == 'rnw':        # constant weightings on domain and range
+        M = np.array(d[1], dtype=float)
+        return odl.MatrixOperator(M, domain=odl.rn(M.shape[1], weighting=d[2]), range=odl.rn(M.shape[0], weighting=d[3]))
+    if k == 'rnaw':       # array weighting on the domain
+        M = np.array(d[1], dtype=float)
+        return odl.MatrixOperator(M, domain=odl.rn(M.shape[1], weighting=d[2]), range=odl.rn(M.shape[0]))
+    if k == 'grad2d':
+        X = odl.uniform_discr([0, 0], [1, 1], d[1])
+        return odl.Gradient(X, method=d[2])
+    if k == 'broadcast':  # x -> (M x, x)
+        M = np.array(d[1], dtype=float)
+        X = odl.rn(M.shape[1])
+        return odl.BroadcastOperator(odl.MatrixOperator(M, domain=X, range=odl.rn(M.shape[0])), odl.IdentityOperator(X))
+    if k == 'multiply':
+        return odl.MultiplyOperator(odl.rn(len(d[1])).element(d[1]))
     raise ValueError(d)
 
 
@@ -939,10 +954,12 @@ def _spec_name(s):
     return s[0]
 
 
-def _rand_spec(rng, n, role, pspace=False):
+def _rand_spec(rng, n, role, pspace=False, plain_rn=True):
     """role: 'prox' (any functional with a proximal), 'smooth' (has a gradient)"""
     if role == 'smooth':
         k = rng.choice(['l2sq', 'l2sqdata', 'quadform', 'zero', 'trans-l2sq', 'huber'])
+        if k == 'l2sqdata' and not plain_rn:
+            k = 'l2sq'
         if k == 'l2sqdata':
             mm = rng.randint(1, 3)
             return ['l2sqdata', _mat(rng, mm, n), _vec(rng, mm)]
@@ -981,14 +998,23 @@ def _rand_spec(rng, n, role, pspace=False):
 
 
 def _rand_op(rng, tier, allow_grad=True):
-    """returns (op description, domain size, range size (flattened), range is a product space)"""
+    """returns (op description, domain size, range size (flattened), range is a power space)"""
     r = rng.random()
-    if allow_grad and r < 0.3:
+    if allow_grad and r < 0.2:
         n = rng.randint(2, 5)
         return ['grad', n, rng.choice(['forward', 'backward', 'central'])], n, n, True
+    if allow_grad and r < 0.28:
+        sh = [rng.randint(2, 3), rng.randint(2, 3)]
+        return ['grad2d', sh, rng.choice(['forward', 'backward'])], sh[0] * sh[1], 2 * sh[0] * sh[1], True
     n, m = rng.randint(1, 4), rng.randint(1, 4)
-    if r < 0.4:
+    if r < 0.36:
         return ['id', n], n, n, False
+    if r < 0.44:
+        return ['rnw', _mat(rng, m, n), rng.choice([0.5, 2.0]), rng.choice([0.25, 4.0])], n, m, False
+    if r < 0.56:
+        return ['multiply', [rng.choice([-2.0, 0.5, 1.0, 3.0]) for _ in range(n)]], n, n, False
+    if r < 0.6:
+        return ['scale', n, rng.choice([0.5, -2.0, 2.5])], n, n, False
     return ['rn', _mat(rng, m, n)], n, m, False
 
 
@@ -1033,7 +1059,7 @@ def probes(rng, tier):
             'adupdates (outer and inner callbacks) and adupdates_simple give the same iterates')
     for _ in range(20 * reps):
         op, n, m, ps = _rand_op(rng, tier)
-        f, g, phi = _rand_spec(rng, n, 'prox'), _rand_spec(rng, m, 'prox', ps), _rand_spec(rng, n, 'smooth')
+        f, g, phi = _rand_spec(rng, n, 'prox'), _rand_spec(rng, m, 'prox', ps), _rand_spec(rng, n, 'smooth', plain_rn=op[0] not in ('grad', 'grad2d'))
         d = {'kind': 'doubleprox_dc-vs-simple', 'op': op, 'f': f, 'g': g, 'phi': phi, 'gamma': _dy(rng), 'mu': _dy(rng),
              'x0': _vec(rng, n), 'y0': _vec(rng, m * (1 if not ps else 1)), 'niter': rng.randint(1, 6 if tier == 'quick' else 15)}
         add(d, 'doubleprox_dc-vs-simple-f=%s-g=%s-phi=%s' % (_spec_name(f), _spec_name(g), _spec_name(phi)),
@@ -1130,7 +1156,7 @@ def probes(rng, tier):
             'last one is the returned x')
     for _ in range(8 * reps):
         op, n, m, ps = _rand_op(rng, tier)
-        f, g, phi = _rand_spec(rng, n, 'prox'), _rand_spec(rng, m, 'prox', ps), _rand_spec(rng, n, 'smooth')
+        f, g, phi = _rand_spec(rng, n, 'prox'), _rand_spec(rng, m, 'prox', ps), _rand_spec(rng, n, 'smooth', plain_rn=op[0] not in ('grad', 'grad2d'))
         d = {'kind': 'resume-doubleprox_dc', 'op': op, 'f': f, 'g': g, 'phi': phi, 'gamma': _dy(rng), 'mu': _dy(rng),
              'x0': _vec(rng, n), 'y0': _vec(rng, m), 'niter': rng.randint(0, 6)}
         add(d, 'resume-doubleprox_dc-f=%s-g=%s' % (_spec_name(f), _spec_name(g)),
